@@ -341,3 +341,69 @@ func TestVerifNoPanicRedefine(t *testing.T) {
 		}
 	}
 }
+
+
+type npCodeErr struct{ code int }
+
+func (e *npCodeErr) Error() string { return fmt.Sprint("code ", e.code) }
+
+type npCauseOut struct {
+	Struct
+	Cause error
+}
+
+// TestVerifNoPanicErrorShapes: result shapes around the error type. A target
+// whose last result is a concrete type implementing error (not the interface)
+// is redefined and the redefined function is called on a succeeding and on a
+// failing conversion; Convert is asked for the error interface itself, with a
+// converter producing a nil and a non-nil error value.
+func TestVerifNoPanicErrorShapes(t *testing.T) {
+	noPanic(t, "Redefine of func(struct{A int}) (int, *concreteErr), redefined call succeeds / fails in a converter", func() {
+		f, err := NewFunc(func(in rdTargetInA) (int, *npCodeErr) { return in.A * 2, nil })
+		if err != nil {
+			t.Errorf("FAILING-INPUT error shapes: NewFunc rejected a concrete error result: %v", err)
+			return
+		}
+		rf, err := f.Redefine(
+			Converter(func(v string) (int, error) {
+				if v == "bad" {
+					return 0, errors.New("not a number")
+				}
+				return len(v), nil
+			}),
+			FilterInput(FilterType(reflect.TypeOf(""))),
+		)
+		if err != nil || rf == nil {
+			return
+		}
+		if r := rf.Call(Typed("abc")); r.Err() != nil {
+			t.Errorf("FAILING-INPUT error shapes: redefined call failed on the success path: %v", r.Err())
+		}
+		if r := rf.Call(Typed("bad")); r.Err() == nil {
+			t.Errorf("FAILING-INPUT error shapes: redefined call reported no error although its converter failed")
+		}
+	})
+	errT := reflect.TypeOf((*error)(nil)).Elem()
+	for _, failed := range []bool{true, false} {
+		failed := failed
+		noPanic(t, fmt.Sprintf("Convert to the error interface, converter yields nil=%v", !failed), func() {
+			v, err := Convert(errT, Typed(7), Converter(func(n int) npCauseOut {
+				if failed {
+					return npCauseOut{Cause: &npCodeErr{n}}
+				}
+				return npCauseOut{}
+			}))
+			if failed && err == nil {
+				t.Errorf("FAILING-INPUT error shapes: Convert to error with a non-nil cause reported nothing (value %v)", v)
+			}
+			if !failed && err != nil {
+				t.Errorf("FAILING-INPUT error shapes: Convert to error with a nil cause failed: %v", err)
+			}
+		})
+	}
+}
+
+type rdTargetInA struct {
+	Struct
+	A int
+}
